@@ -143,7 +143,8 @@ func c08pipeModel(c *Ctx, ruleMirror, ruleHop, ruleState string) {
 		label, text string
 		geographic  bool
 		unit, pm    poly // nil: not given
-		flip        bool // axis order "wsu": both horizontal axes point the other way
+		flip        bool   // axis order "wsu": both horizontal axes point the other way
+		axis        string // any other axis order ("neu", "nwu", "seu" …); "" with flip=false is "enu"
 	}
 	build := func(d refDef) (*oStruct, string) {
 		sr, why := m.run(parse, d.text)
@@ -163,6 +164,16 @@ func c08pipeModel(c *Ctx, ruleMirror, ruleHop, ruleState string) {
 		neg := big.NewRat(-1, 1)
 		if a.flip {
 			x, y = x.scale(neg), y.scale(neg)
+		}
+		if a.axis != "" {
+			// proj4js 2.3.12, which the package ports: the i-th letter decides the sign of the i-th
+			// ordinate (w and s reverse it); the ordinates are not swapped
+			if a.axis[0] == 'w' || a.axis[0] == 's' {
+				x = x.scale(neg)
+			}
+			if a.axis[1] == 'w' || a.axis[1] == 's' {
+				y = y.scale(neg)
+			}
 		}
 
 		if a.geographic {
@@ -197,24 +208,37 @@ func c08pipeModel(c *Ctx, ruleMirror, ruleHop, ruleState string) {
 		if b.flip {
 			X, Y = X.scale(neg), Y.scale(neg)
 		}
+		if b.axis != "" {
+			if b.axis[0] == 'w' || b.axis[0] == 's' {
+				X = X.scale(neg)
+			}
+			if b.axis[1] == 'w' || b.axis[1] == 's' {
+				Y = Y.scale(neg)
+			}
+		}
 		return X, Y
 	}
 	refs := map[string]refDef{
-		"F":  {"F", "+proj=merc +lon_0=P4 +a=P7 +rf=P8 +axis=wsu +no_defs", false, nil, nil, true},
-		"A":  {"A", "+proj=merc +lon_0=P4 +x_0=P5 +y_0=P6 +a=P7 +rf=P8 +to_meter=P33 +pm=P31 +no_defs", false, polyVar("p33"), polyVar("p31"), false},
-		"B":  {"B", "+proj=lcc +lat_1=P1 +lat_2=P2 +lat_0=P3 +lon_0=P4 +a=P7 +rf=P8 +to_meter=P34 +pm=P32 +no_defs", false, polyVar("p34"), polyVar("p32"), false},
-		"G":  {"G", "+proj=longlat +a=P7 +rf=P8 +pm=P31 +no_defs", true, nil, polyVar("p31"), false},
-		"H":  {"H", "+proj=longlat +a=P7 +b=P7 +no_defs", true, nil, nil, false},
-		"M":  {"M", "+proj=tmerc +lat_0=P3 +lon_0=P4 +k_0=P13 +a=P7 +rf=P8 +no_defs", false, nil, nil, false},
-		"D3": {"D3", "+proj=merc +lon_0=P4 +a=P7 +rf=P8 +towgs84=P9,P10,P11 +no_defs", false, nil, nil, false},
-		"D7": {"D7", "+proj=lcc +lat_1=P1 +lat_2=P2 +lat_0=P3 +lon_0=P4 +a=P7 +rf=P8 +towgs84=P21,P22,P23,P24,P25,P26,P27 +no_defs", false, nil, nil, false},
+		"F":  {"F", "+proj=merc +lon_0=P4 +a=P7 +rf=P8 +axis=wsu +no_defs", false, nil, nil, true, ""},
+		"A":  {"A", "+proj=merc +lon_0=P4 +x_0=P5 +y_0=P6 +a=P7 +rf=P8 +to_meter=P33 +pm=P31 +no_defs", false, polyVar("p33"), polyVar("p31"), false, ""},
+		"B":  {"B", "+proj=lcc +lat_1=P1 +lat_2=P2 +lat_0=P3 +lon_0=P4 +a=P7 +rf=P8 +to_meter=P34 +pm=P32 +no_defs", false, polyVar("p34"), polyVar("p32"), false, ""},
+		"G":  {"G", "+proj=longlat +a=P7 +rf=P8 +pm=P31 +no_defs", true, nil, polyVar("p31"), false, ""},
+		"H":  {"H", "+proj=longlat +a=P7 +b=P7 +no_defs", true, nil, nil, false, ""},
+		"M":  {"M", "+proj=tmerc +lat_0=P3 +lon_0=P4 +k_0=P13 +a=P7 +rf=P8 +no_defs", false, nil, nil, false, ""},
+		"D3": {"D3", "+proj=merc +lon_0=P4 +a=P7 +rf=P8 +towgs84=P9,P10,P11 +no_defs", false, nil, nil, false, ""},
+		"D7": {"D7", "+proj=lcc +lat_1=P1 +lat_2=P2 +lat_0=P3 +lon_0=P4 +a=P7 +rf=P8 +towgs84=P21,P22,P23,P24,P25,P26,P27 +no_defs", false, nil, nil, false, ""},
 		// a shifted datum and a prime meridian on the same side
-		"PD": {"PD", "+proj=longlat +a=P7 +rf=P8 +pm=P31 +towgs84=P9,P10,P11 +no_defs", true, nil, polyVar("p31"), false},
-		"QD": {"QD", "+proj=merc +lon_0=P4 +a=P7 +rf=P8 +to_meter=P34 +pm=P32 +towgs84=P21,P22,P23,P24,P25,P26,P27 +no_defs", false, polyVar("p34"), polyVar("p32"), false},
+		"PD": {"PD", "+proj=longlat +a=P7 +rf=P8 +pm=P31 +towgs84=P9,P10,P11 +no_defs", true, nil, polyVar("p31"), false, ""},
+		// axis orders that name the axes in the other order, with none, the first or the second reversed (proj4js 2.3.12 and the port read the letters position by position: only the signs matter)
+		"N1": {"N1", "+proj=merc +lon_0=P4 +a=P7 +rf=P8 +axis=neu +no_defs", false, nil, nil, false, "neu"},
+		"N2": {"N2", "+proj=merc +lon_0=P4 +a=P7 +rf=P8 +axis=nwu +no_defs", false, nil, nil, false, "nwu"},
+		"N3": {"N3", "+proj=lcc +lat_1=P1 +lat_2=P2 +lat_0=P3 +lon_0=P4 +a=P7 +rf=P8 +axis=seu +no_defs", false, nil, nil, false, "seu"},
+		"N4": {"N4", "+proj=merc +lon_0=P4 +a=P7 +rf=P8 +axis=esu +no_defs", false, nil, nil, false, "esu"},
+		"QD": {"QD", "+proj=merc +lon_0=P4 +a=P7 +rf=P8 +to_meter=P34 +pm=P32 +towgs84=P21,P22,P23,P24,P25,P26,P27 +no_defs", false, polyVar("p34"), polyVar("p32"), false, ""},
 	}
 	// the WGS84 reference the pipeline goes through when one side has a shifted datum and the other
 	// is not WGS84 itself
-	wgs := refDef{"W(WGS84)", "", true, nil, nil, false}
+	wgs := refDef{"W(WGS84)", "", true, nil, nil, false, ""}
 	shifted := map[string]bool{"D3": true, "D7": true, "PD": true, "QD": true}
 	callT := func(t oval, x, y poly) ([]oval, string) {
 		c.Evals(1)
@@ -244,7 +268,8 @@ func c08pipeModel(c *Ctx, ruleMirror, ruleHop, ruleState string) {
 			c.OK(rule, cons, pos, "%s", okText)
 		}
 	}
-	pairs := [][2]string{{"A", "B"}, {"B", "A"}, {"G", "B"}, {"A", "G"}, {"G", "H"}, {"M", "A"}, {"F", "A"}, {"A", "F"}, {"PD", "B"}, {"A", "QD"}, {"PD", "QD"}}
+	pairs := [][2]string{{"A", "B"}, {"B", "A"}, {"G", "B"}, {"A", "G"}, {"G", "H"}, {"M", "A"}, {"F", "A"}, {"A", "F"}, {"PD", "B"}, {"A", "QD"}, {"PD", "QD"},
+		{"N1", "A"}, {"A", "N2"}, {"N2", "B"}, {"N3", "A"}, {"B", "N3"}, {"N4", "N1"}}
 	if c.Thorough {
 		// every ordered pair of the model references
 		have := map[[2]string]bool{}
